@@ -293,18 +293,20 @@ def run_group(exe, drv, env, cases, pagesize, timeout):
 
 
 def strip_impl(l):
+    """-> (comparable core incl. the lock events of the operation, oracle verdict of the harness)"""
     p = l.split()
-    if p and p[0] == "A":
-        return " ".join(p[:3]), (p[3] if len(p) > 3 else "ok")
-    if p and p[0] == "F":
-        return "F ok", (None if l == "F ok" else " ".join(p[1:]))
+    if p and p[0] == "A" and len(p) >= 5:
+        return " ".join(p[:3]) + " " + p[4], p[3]
+    if p and p[0] == "F" and len(p) >= 3:
+        return "F ok " + p[2], (None if p[1] == "ok" else p[1])
     return l, None
 
 
 def strip_model(l):
+    """-> (comparable core incl. the lock events predicted by the micro-step machine, path tag)"""
     p = l.split()
-    if p and p[0] in ("A", "F") and len(p) >= 2 and p[-1].startswith("@"):
-        return " ".join(p[:-1]), p[-1][1:]
+    if p and p[0] in ("A", "F") and len(p) >= 3 and p[-2].startswith("@"):
+        return " ".join(p[:-2]) + " " + p[-1], p[-2][1:]
     return l, None
 
 
@@ -540,7 +542,9 @@ def run(ctx):
                         "a cache was refilled from it",
                    traces_validated_against_impl=ncases, cases=ncases, model_paths=stats, ipa_distribution=ipa_hist,
                    correspondence_mismatches=len(mismatches), stress=stress,
-                   observables="(slab ordinal, byte offset) of every alloc; item_size/alignment/alloc_size/items_per_alloc of every create; "
+                   observables="lock events (acquire/release of reuse_lock / pool_lock, interposed FASTLOCK macros) of every operation vs the "
+                               "micro-step machine Mpool/Micro.v run solo, whose final pool must equal the op-atomic model's; "
+                               "(slab ordinal, byte offset) of every alloc; item_size/alignment/alloc_size/items_per_alloc of every create; "
                                "white-box dump of reuse list and per-thread cache lists incl. block_tail, count, block, i")
     ctx.assumptions += ["posix_memalign/memalign/malloc return disjoint slabs aligned as asked (trusted)",
                         "pthread_getspecific is a per-thread map (trusted)",
